@@ -16,7 +16,8 @@ def expected(v, ec):
     pid = 'PID' + F * 3 + 'a' + C + 'b' + S + 'c' + F * 2 + 'x' + C + 'y'
     nk1 = 'NK1' + F * 2 + 'n' + C + 'm' + R + 'o' + S + 'p'
     pv1 = 'PV1' + F * 2 + 'I'
-    return '\r'.join([msh, pid, nk1, pv1]), F + C + S + R + E + T
+    in1 = 'IN1' + F + '1' + F + 'i' + C + 'j' + S + 'k'
+    return '\r'.join([msh, pid, nk1, pv1] + ([in1] if v != '2.1' else [])), F + C + S + R + E + T
 
 
 def run(tier, seed):
